@@ -43,6 +43,12 @@ def run(ctx):
         ctx.check(insc - 1e-9 <= float(C) <= circ + 1e-9, "circle area outside [inscribed, circumscribed] polygon areas", desc, sig=sig)
         ctx.check(ce in C and (float(ce[0]) + 0.999 * r * math.cos(0.3), float(ce[1]) + 0.999 * r * math.sin(0.3)) in C and
                   (float(ce[0]) + 1.2 * r, float(ce[1])) not in C, "circle containment of centre / near-boundary / far point", desc)
+    # deterministic: LARGE units of length (a valid call must return the circle, whatever the rounding drift of the n-times rotated point)
+    for rad, c, nd in ((6371000.0, None, 72), (10 ** 7, None, 16), (2.5e9, (1.0e9, -3.0e9), 16), (1.0e6, None, 64), (4.0e5, (5.0e5, 1.0e5), 360)):
+        try:
+            check_circle(rad, c, nd)
+        except Exception as ex:
+            ctx.fail("valid circle parameters, but the factory raised", {"factory": "circle", "radius": rad, "center": c, "ndivangle": nd}, got=repr(ex))
     # deterministic corpus: canonical input of finding K1 and its x20 scaled twin (which must be clean)
     check_circle(0.22026826599843585, (4, 3), 256)
     check_circle(20 * 0.22026826599843585, (80, 60), 256)
